@@ -270,6 +270,255 @@ theorem new_other_installed {w w' : PWorld} {cls : Nat} {vals : List (Name × Va
   obtain ⟨hb, hch, _⟩ := builtM_agree hs hag
   exact ⟨⟨by rw [hb]; exact hi.shapes, hi.owned, hi.cbs, hi.dynKeys⟩, rfl, hch⟩
 
+/-! ### constructing an object of a method-less class keeps scope and typing -/
+
+/-- the class declares the parameters the specs name, with the right kinds -/
+structure ClassFits (c : PClass) (specs : List PathSpec) : Prop where
+  noMethods : c.methods = []
+  objP : ∀ s ∈ specs, ∀ n ∈ s.path, n ∈ c.objParams ∧ n ≠ "name"
+  intP : ∀ s ∈ specs, s.leaf ∈ c.intParams ∧ s.leaf ≠ "name"
+
+theorem newObj_checks {w w' : PWorld} {cls : Nat} {vals : List (Name × Val)} (h : newObj w cls vals = .ok w') :
+    ∃ c, w.classes[cls]? = some c ∧ vals.map (·.1) = c.paramNames ∧
+      (∀ kv ∈ vals, kv.1 = "name" ∨ accepts w c kv.1 kv.2 = true) := by
+  unfold newObj at h
+  split at h
+  · simp at h
+  · rename_i c hc
+    split at h
+    · simp at h
+    · rename_i hk
+      split at h
+      · simp at h
+      · rename_i ha
+        refine ⟨c, hc, by simpa using hk, ?_⟩
+        intro kv hkv
+        have hall : (vals.all fun kv => decide (kv.1 = "name") || accepts w c kv.1 kv.2) = true := by
+          cases hx : (vals.all fun kv => decide (kv.1 = "name") || accepts w c kv.1 kv.2) with
+          | true => rfl
+          | false => rw [hx] at ha; simp at ha
+        have := (List.all_eq_true.1 hall) kv hkv
+        simpa using this
+
+theorem lookupVal_mem : ∀ (vals : List (Name × Val)) (n : Name), n ∈ vals.map (·.1) →
+    ∃ v, lookupVal vals n = some v ∧ (n, v) ∈ vals := by
+  intro vals
+  induction vals with
+  | nil => intro n h; cases h
+  | cons kv rest ih =>
+    intro n h
+    obtain ⟨k, v⟩ := kv
+    by_cases hk : k = n
+    · subst hk; exact ⟨v, by simp [lookupVal], by simp⟩
+    · simp only [List.map_cons, List.mem_cons] at h
+      rcases h with h | h
+      · exact absurd h.symm hk
+      · obtain ⟨v', h1, h2⟩ := ih n h
+        exact ⟨v', by simp [lookupVal, hk, h1], List.mem_cons_of_mem _ h2⟩
+
+theorem new_scope {w w' : PWorld} {cls : Nat} {vals : List (Name × Val)} {t : Oid} {m : Name} {specs : List PathSpec}
+    (hnew : newObj w cls vals = .ok w') (hs : Scope w t m specs) (hty : Typing w specs)
+    (hfit : ∀ c, w.classes[cls]? = some c → ClassFits c specs) : Scope w' t m specs ∧ Typing w' specs := by
+  obtain ⟨c, hc, hkeys, hacc⟩ := newObj_checks hnew
+  obtain ⟨_, _, hud⟩ := newObj_ok hnew
+  have hg := updateDeps_graph hud
+  have hf := hfit c hc
+  obtain ⟨ct, _, hct, _⟩ := hs.tcls
+  have htl : t < w.objs.length := classOf_lt hct
+  generalize hw1 : ({ w with objs := w.objs ++ [⟨cls, vals⟩] } : PWorld) = w1 at hg
+  have hlen : w1.objs.length = w.objs.length + 1 := by subst hw1; simp
+  have hcl : w1.classes = w.classes := by subst hw1; rfl
+  have hgp : ∀ o n, getParam w1 o n = if o < w.objs.length then getParam w o n
+      else if o = w.objs.length then lookupVal vals n else none := by
+    intro o n
+    subst hw1
+    by_cases h1 : o < w.objs.length
+    · simp [h1, getParam, List.getElem?_append_left h1]
+    · by_cases h2 : o = w.objs.length
+      · subst h2; simp [getParam]
+      · have : w.objs.length + 1 ≤ o :=
+          Nat.succ_le_of_lt (Nat.lt_of_le_of_ne (Nat.le_of_not_lt h1) (fun e => h2 e.symm))
+        have hnone : (w.objs ++ [(⟨cls, vals⟩ : PObj)])[o]? = none :=
+          List.getElem?_eq_none (by simp only [List.length_append, List.length_cons, List.length_nil]; exact this)
+        simp [h1, h2, getParam, hnone]
+  have hco : ∀ o, classOf w1 o = if o < w.objs.length then classOf w o
+      else if o = w.objs.length then some c else none := by
+    intro o
+    subst hw1
+    by_cases h1 : o < w.objs.length
+    · simp [h1, classOf, List.getElem?_append_left h1]
+    · by_cases h2 : o = w.objs.length
+      · subst h2; simp [classOf, hc]
+      · have : w.objs.length + 1 ≤ o :=
+          Nat.succ_le_of_lt (Nat.lt_of_le_of_ne (Nat.le_of_not_lt h1) (fun e => h2 e.symm))
+        have hnone : (w.objs ++ [(⟨cls, vals⟩ : PObj)])[o]? = none :=
+          List.getElem?_eq_none (by simp only [List.length_append, List.length_cons, List.length_nil]; exact this)
+        simp [h1, h2, classOf, hnone]
+  -- what the new object holds for a name its class declares
+  have hnewval : ∀ n, n ∈ c.objParams ∨ n ∈ c.intParams → n ≠ "name" →
+      ∃ v, lookupVal vals n = some v ∧ accepts w c n v = true := by
+    intro n hn hne
+    have : n ∈ vals.map (·.1) := by
+      rw [hkeys]; simp only [PClass.paramNames, List.mem_cons, List.mem_append]; exact Or.inr hn
+    obtain ⟨v, h1, h2⟩ := lookupVal_mem vals n this
+    rcases hacc (n, v) h2 with h | h
+    · exact absurd h hne
+    · exact ⟨v, h1, h⟩
+  have hcmem : c ∈ w.classes := List.mem_of_getElem? hc
+  have hasN : ∀ n, HasName w n → (n ∈ c.objParams ∨ n ∈ c.intParams) → n ≠ "name" → HasName w1 n := by
+    intro n hn hin hne o ho
+    rw [hgp]
+    by_cases h1 : o < w.objs.length
+    · simp only [h1, if_true]; exact hn o h1
+    · have h2 : o = w.objs.length := by rw [hlen] at ho; exact Nat.le_antisymm (Nat.le_of_lt_succ ho) (Nat.le_of_not_lt h1)
+      obtain ⟨v, hv, _⟩ := hnewval n hin hne
+      refine ⟨v, ?_⟩
+      rw [if_neg h1, if_pos h2]
+      exact hv
+  have hscope1 : Scope w1 t m specs := by
+    refine ⟨?_, ?_, hs.nonempty, hs.leaf, hs.path, ?_, ?_⟩
+    · rw [hco t]; simp only [htl, if_true]; exact hs.tcls
+    · intro o c' ho hc'
+      rw [hco o] at hc'
+      by_cases h1 : o < w.objs.length
+      · simp only [h1, if_true] at hc'; exact hs.others o c' ho hc'
+      · simp only [h1, if_false] at hc'
+        split at hc'
+        · cases hc'; exact hf.noMethods
+        · cases hc'
+    · intro s hs' n hn
+      obtain ⟨hno, hne⟩ := hf.objP s hs' n hn
+      refine ⟨hasN n (hs.names s hs' n hn).1 (Or.inl hno) hne, ?_, (hs.names s hs' n hn).2.2⟩
+      intro o v hv
+      rw [hgp] at hv
+      rw [hlen]
+      by_cases h1 : o < w.objs.length
+      · simp only [h1, if_true] at hv
+        rcases (hs.names s hs' n hn).2.1 o v hv with h | ⟨o', h, hlt⟩
+        · exact Or.inl h
+        · exact Or.inr ⟨o', h, Nat.lt_succ_of_lt hlt⟩
+      · simp only [h1, if_false] at hv
+        split at hv
+        · obtain ⟨v', hv', hacc'⟩ := hnewval n (Or.inl hno) hne
+          rw [hv'] at hv
+          cases hv
+          unfold accepts at hacc'
+          cases v with
+          | none => exact Or.inl rfl
+          | ref o2 =>
+            simp only [Bool.and_eq_true, decide_eq_true_eq] at hacc'
+            exact Or.inr ⟨o2, rfl, Nat.lt_succ_of_lt hacc'.2⟩
+          | int i =>
+            simp only [List.contains_iff_mem] at hacc'
+            exact absurd hacc' (hty.objOnly s hs' n hn c hcmem)
+        · cases hv
+    · intro s hs'
+      obtain ⟨hli, hne⟩ := hf.intP s hs'
+      exact hasN s.leaf (hs.hasLeaf s hs') (Or.inr hli) hne
+  have hty1 : Typing w1 specs := by
+    refine ⟨fun s hs' n hn c' hc' => hty.objOnly s hs' n hn c' (by rw [← hcl]; exact hc'),
+      fun s hs' c' hc' => hty.intOnly s hs' c' (by rw [← hcl]; exact hc'), ?_⟩
+    intro s hs' o v hv
+    rw [hgp] at hv
+    by_cases h1 : o < w.objs.length
+    · simp only [h1, if_true] at hv; exact hty.leafInt s hs' o v hv
+    · simp only [h1, if_false] at hv
+      split at hv
+      · obtain ⟨hli, hne⟩ := hf.intP s hs'
+        obtain ⟨v', hv', hacc'⟩ := hnewval s.leaf (Or.inr hli) hne
+        rw [hv'] at hv
+        cases hv
+        unfold accepts at hacc'
+        cases v with
+        | int i => exact ⟨i, rfl⟩
+        | none =>
+          simp only [List.contains_iff_mem] at hacc'
+          exact absurd hacc' (hty.intOnly s hs' c hcmem)
+        | ref o2 =>
+          simp only [Bool.and_eq_true, List.contains_iff_mem] at hacc'
+          exact absurd hacc'.1 (hty.intOnly s hs' c hcmem)
+      · cases hv
+  exact ⟨hscope1.congr hg, hty1.congr hg⟩
+
+/-! ### no step touches the class list -/
+
+theorem setAllBatched_classes (o : Oid) : ∀ (kvs : List (Name × Val)) (u u' : PWorld) (e e' : List QEv) (q q' : List DW),
+    setAllBatched u o e q kvs = .ok (u', e', q') → u'.classes = u.classes := by
+  intro kvs
+  induction kvs with
+  | nil => intro u u' e e' q q' h1; simp only [setAllBatched, Except.ok.injEq, Prod.mk.injEq] at h1; rw [← h1.1]
+  | cons kv rest ih =>
+    intro u u' e e' q q' h1
+    obtain ⟨p, v⟩ := kv
+    simp only [setAllBatched] at h1
+    split at h1
+    · simp at h1
+    · rename_i u1 e1 q1 hb
+      have : u1.classes = u.classes := by
+        unfold setBatched at hb
+        split at hb
+        · split at hb
+          · simp at hb
+          · split at hb
+            · simp at hb
+            · split at hb
+              · simp at hb
+              · simp only at hb
+                split at hb
+                · simp at hb
+                · rename_i u2 hu2
+                  simp only [Except.ok.injEq, Prod.mk.injEq] at hb
+                  rw [← hb.1]
+                  exact (updateDeps_graph hu2).2
+        · simp at hb
+      exact (ih u1 u' e1 e' q1 q' h1).trans this
+
+theorem flushQueue_classes (evs : List QEv) : ∀ (ws : List DW) (u u' : PWorld), flushQueue u evs ws = .ok u' →
+    u'.classes = u.classes := by
+  intro ws
+  induction ws with
+  | nil => intro u u' h1; simp only [flushQueue, Except.ok.injEq] at h1; rw [h1]
+  | cons x rest ih =>
+    intro u u' h1
+    simp only [flushQueue] at h1
+    split at h1
+    · simp at h1
+    · rename_i u1 hf
+      have : u1.classes = u.classes := by
+        unfold flushWatcher at hf
+        simp only at hf
+        split at hf
+        · simp at hf
+        · rename_i u2 hu2
+          have hg2 : u2.classes = u.classes := by
+            split at hu2
+            · exact (updateDeps_graph hu2).2
+            · simp only [Except.ok.injEq] at hu2; rw [hu2]
+          split at hf <;> simp only [Except.ok.injEq] at hf <;> rw [← hf]
+          · exact hg2
+          · exact hg2
+      split at h1
+      · simp only [Except.ok.injEq] at h1; rw [← h1]; exact this
+      · exact (ih u1 u' h1).trans this
+
+theorem runStep_classes {w w' : PWorld} {st : Step} (h : runStep w st = .ok w') : w'.classes = w.classes := by
+  cases st with
+  | new cls vals =>
+    obtain ⟨_, _, hud⟩ := newObj_ok h
+    exact (updateDeps_graph hud).2
+  | set o p v =>
+    obtain ⟨_, _, _, _, hg⟩ := setParam_graph h
+    exact hg.2
+  | update o kvs =>
+    simp only [runStep, updateObj] at h
+    split at h
+    · simp at h
+    · rename_i w1 evs q hs
+      have h1 := setAllBatched_classes o kvs w w1 [] evs [] q hs
+      split at h
+      · simp only [Except.ok.injEq] at h; rw [← h]; exact h1
+      · exact (flushQueue_classes evs q w1 w' h).trans h1
+
 /-- every installed watcher sits on an object that currently holds a dependency of the method: an
 object of the current resolution chain of one of its specs -/
 theorem installed_on_chain {w : PWorld} {t : Oid} {m : Name} {specs : List PathSpec}
